@@ -931,3 +931,44 @@ func schemaHasUnique(schema, table, cols string) bool {
 	}
 	return false
 }
+
+// sqlExprText prints an expression in a canonical lower-case form (contracts compare small pieces of statements, such
+// as the ORDER BY list of the view read-out, by this text).
+func sqlExprText(x *SQLExpr) string {
+	if x == nil {
+		return ""
+	}
+	switch x.Op {
+	case "col":
+		if x.Tbl != "" {
+			return strings.ToLower(x.Tbl) + "." + strings.ToLower(x.Name)
+		}
+		return strings.ToLower(x.Name)
+	case "param":
+		return x.Name
+	case "num":
+		return x.Name
+	case "str":
+		return "'" + x.Name + "'"
+	case "null":
+		return "null"
+	case "call":
+		var as []string
+		for _, a := range x.Args {
+			as = append(as, sqlExprText(a))
+		}
+		return x.Name + "(" + strings.Join(as, ",") + ")"
+	case "not", "isnull", "notnull":
+		if len(x.Args) == 1 {
+			return x.Op + "(" + sqlExprText(x.Args[0]) + ")"
+		}
+	}
+	if len(x.Args) == 2 {
+		return "(" + sqlExprText(x.Args[0]) + x.Op + sqlExprText(x.Args[1]) + ")"
+	}
+	var as []string
+	for _, a := range x.Args {
+		as = append(as, sqlExprText(a))
+	}
+	return x.Op + "(" + strings.Join(as, ",") + ")"
+}
